@@ -333,3 +333,44 @@ func resultsCmd(job []byte, out *Out) error {
 	}
 	return nil
 }
+
+func init() { register("tooltable", toolTableCmd) }
+
+// job: {"files":[paths]} -> for each file the library values for every (test, documented parameter), keyed by
+// the canonical parameter tokens used in the report header
+func toolTableCmd(job []byte, out *Out) error {
+	var j struct {
+		Files []string `json:"files"`
+	}
+	if err := json.Unmarshal(job, &j); err != nil {
+		return err
+	}
+	type spec struct {
+		i, param int
+		tok      string
+	}
+	specs := []spec{{1, 0, ""}, {3, 4, "m=4"}, {3, 8, "m=8"}, {3, 2, "m=2"}, {4, 2, "m=2"}, {4, 3, "m=3"}, {4, 5, "m=5"}, {4, 7, "m=7"}, {5, 0, ""}, {6, 0, ""},
+		{7, 1, "ones"}, {7, 0, "zeros"}, {8, 3, "k=3"}, {8, 7, "k=7"}, {8, 15, "k=15"}, {9, 1, "d=1"}, {9, 2, "d=2"}, {9, 8, "d=8"}, {9, 16, "d=16"}, {9, 32, "d=32"},
+		{10, 32, ""}, {11, 1, "fwd"}, {11, 0, "bwd"}, {12, 2, "m=2"}, {12, 5, "m=5"}, {12, 7, "m=7"}, {13, 500, "m=500"}, {13, 1000, "m=1000"}, {13, 5000, "m=5000"},
+		{14, 0, ""}, {15, 0, ""}, {2, 100, "m=100"}, {2, 1000, "m=1000"}, {2, 10000, "m=10000"}, {2, 100000, "m=100000"}, {2, 1000000, "m=1000000"}}
+	for _, fn := range j.Files {
+		data, err := os.ReadFile(fn)
+		if err != nil {
+			return err
+		}
+		bits := randomness.B2bitArr(data)
+		table := []R{}
+		for _, s := range specs {
+			if len(bits) < minLen(s.i, s.param) {
+				continue
+			}
+			func() {
+				defer func() { recover() }()
+				r := protoAt(s.i, s.param, bits)
+				table = append(table, R{"t": testIDs[s.i-1], "p": s.tok, "P": r["P"], "Q": r["Q"], "P2": r["P2"], "Q2": r["Q2"]})
+			}()
+		}
+		out.Emit(R{"file": filepath.Base(fn), "nbits": len(bits), "table": table})
+	}
+	return nil
+}
